@@ -19,7 +19,7 @@ func init() {
 		ID:          "C03",
 		Level:       "other",
 		Run:         runC03,
-		Explanation: "Structural rules over the pipelined variants: R03.1 who-may-write architectural state (Context.Registers/Memory are stored to only by non-scoreboard Context methods and by the variants' line write-back routines; Context writers are called only from write units, branch resolution and Run); R03.2 every write-unit commit is behind the sequence filter `execution.SequenceID > limit` with limit != -1, and from the variant where register results are renamed the write-unit step of a flush cycle receives the limit; R03.3 the pipeline flush reaches the flush/clean of every bus and unit (and bumps the sequence epoch where one is used); R03.4 before the flush, Run drains execute units holding older work with the limit installed and the execute unit's pre-step drops exactly the younger ones; R03.5 branch resolution: taken -> rollback with the branch's own id, not taken -> commit; R03.6 decode stalls after an unconditional jump until the target is reported; R03.7 stores reach a cache only sequence-guarded or gated on unresolved conditional branches; R03.8 the branch/memory classification tables agree with the opcode implementations; R03.10 the flush path contains no explicit panic; R03.11 every read of the memory image by a line fetch is bounded (a wrong-path load may fetch any address); R03.12 the branch unit never misses a flush (assert -> jump/conditionalBranch sets the flush flag whenever the resolved pc differs from the fetched one); R03.13 every dispatch path of the control unit maintains the flags that hold ret and stores behind an unresolved conditional branch; R03.18 when a jump's target is resolved the branch target buffer is updated and the fetch redirected unconditionally (a buffer hit is never verified elsewhere); R03.17 the one-line-per-access data path tests the sign of an address before it selects a line with a truncating remainder (a wrong-path load can carry a negative address); R03.16 the wholesale commit at the resolution of a not-taken conditional branch is safe only if conditional branches resolve one at a time (held while an older one is unresolved) or the commit is bounded by the branch's sequence id; R03.15 a variant that writes results into the register file directly dispatches in order or holds every instruction while a conditional branch is unresolved; R03.14 the squash restores register state: Context.Rollback/RATRollback, the transactional writes and the tag-bounded rename-table lookups equal the reference model (spec/risc_state.go.txt). Does not decide that sequence ids order instructions correctly across loop iterations and epochs (a value question).",
+		Explanation: "Structural rules over the pipelined variants: R03.1 who-may-write architectural state (Context.Registers/Memory are stored to only by non-scoreboard Context methods and by the variants' line write-back routines; Context writers are called only from write units, branch resolution and Run); R03.2 every write-unit commit is behind the sequence filter `execution.SequenceID > limit` with limit != -1, and from the variant where register results are renamed the write-unit step of a flush cycle receives the limit; R03.3 the pipeline flush reaches the flush/clean of every bus and unit (and bumps the sequence epoch where one is used); R03.4 before the flush, Run drains execute units holding older work with the limit installed and the execute unit's pre-step drops exactly the younger ones; R03.5 branch resolution: taken -> rollback with the branch's own id, not taken -> commit; R03.6 decode stalls after an unconditional jump until the target is reported; R03.7 stores reach a cache only sequence-guarded or gated on unresolved conditional branches; R03.8 the branch/memory classification tables agree with the opcode implementations; R03.10 the flush path contains no explicit panic; R03.11 every read of the memory image by a line fetch is bounded (a wrong-path load may fetch any address); R03.12 the branch unit never misses a flush (assert -> jump/conditionalBranch sets the flush flag whenever the resolved pc differs from the fetched one); R03.13 every dispatch path of the control unit maintains the flags that hold ret and stores behind an unresolved conditional branch; R03.19 an inner flush proposed during the drain before a flush replaces the pending restart pc and limit; R03.20 the write-back of a line skips the bytes below address 0 and stops only past the end of the image; R03.18 when a jump's target is resolved the branch target buffer is updated and the fetch redirected unconditionally (a buffer hit is never verified elsewhere); R03.17 the one-line-per-access data path tests the sign of an address before it selects a line with a truncating remainder (a wrong-path load can carry a negative address); R03.16 the wholesale commit at the resolution of a not-taken conditional branch is safe only if conditional branches resolve one at a time (held while an older one is unresolved) or the commit is bounded by the branch's sequence id; R03.15 a variant that writes results into the register file directly dispatches in order or holds every instruction while a conditional branch is unresolved; R03.14 the squash restores register state: Context.Rollback/RATRollback, the transactional writes and the tag-bounded rename-table lookups equal the reference model (spec/risc_state.go.txt). Does not decide that sequence ids order instructions correctly across loop iterations and epochs (a value question).",
 		Assumptions: []string{"sequence ids increase in program order within an epoch (not decided)"},
 		Trusted:     []string{"go/types", "role resolution (evidence.anchors)", "E-TERM opcode terms for the derived classification"},
 	})
@@ -996,6 +996,10 @@ func runC03(r *Run) {
 	ruleNegativeAddresses(r, "R03.17")
 	r.floor("R03.18", 8)
 	ruleJumpResolutionRedirects(r, "R03.18")
+	r.floor("R03.19", 6)
+	ruleInnerFlushOverrides(r, "R03.19")
+	r.floor("R03.20", 7)
+	ruleWriteBackBounds(r, "R03.20")
 	// the squash restores the register state: rollback and the tag-bounded
 	// rename-table lookups equal the reference model
 	r.floor("R03.14", 6)
@@ -1560,6 +1564,149 @@ func ruleJumpResolutionRedirects(r *Run, rule string) {
 					}
 				}
 				r.check(good, rule, fmt.Sprintf("%s.%s:unconditional-redirect", v.rel, declName(fd)), fd.Pos(), "when a jump's target is resolved the branch target buffer is updated and the fetch unit redirected to the resolved target unconditionally (a buffer hit is never verified elsewhere)")
+			}
+		}
+	}
+}
+
+// ruleInnerFlushOverrides (R03.19): while the older in-flight instructions are
+// finished before a flush, one of them (older than the branch that asked for the
+// flush) may itself resolve as mispredicted. Its flush replaces the pending one:
+// restart pc and sequence limit are REPLACED by the inner proposal, not merged
+// with the pending values (a `max` keeps the target of the younger, wrong-path
+// instruction).
+func ruleInnerFlushOverrides(r *Run, rule string) {
+	w := r.W
+	for _, v := range variants(w) {
+		if v.pkg == nil || !v.pipelined() {
+			continue
+		}
+		info := v.info
+		_, flush := v.retAndFlushBranches()
+		if flush == nil {
+			continue
+		}
+		n := 0
+		ast.Inspect(flush.Body, func(m ast.Node) bool {
+			is, ok := m.(*ast.IfStmt)
+			if !ok {
+				return true
+			}
+			// condition: a bool field of a unit response (resp.flush)
+			sel, ok := ast.Unparen(is.Cond).(*ast.SelectorExpr)
+			if !ok {
+				return true
+			}
+			s := info.Selections[sel]
+			if s == nil || s.Kind() != types.FieldVal || typeName(s.Obj().Type()) != "bool" {
+				return true
+			}
+			rid, ok := ast.Unparen(sel.X).(*ast.Ident)
+			if !ok {
+				return true
+			}
+			resp := info.Uses[rid]
+			n++
+			var merged []string
+			for _, st := range is.Body.List {
+				as, ok := st.(*ast.AssignStmt)
+				if !ok {
+					continue
+				}
+				for _, rhs := range as.Rhs {
+					// accepted: a field of the same response
+					if s2, ok := ast.Unparen(rhs).(*ast.SelectorExpr); ok {
+						if id2, ok := ast.Unparen(s2.X).(*ast.Ident); ok && info.Uses[id2] == resp {
+							continue
+						}
+					}
+					merged = append(merged, types.ExprString(rhs))
+				}
+			}
+			r.check(len(merged) == 0, rule, fmt.Sprintf("%s.(CPU).Run:inner-flush#%d", v.rel, n), is.Pos(), "an inner flush proposed while the older instructions are finished REPLACES the pending restart pc and sequence limit with its own (it comes from an older instruction); merged values: %v", merged)
+			return true
+		})
+	}
+}
+
+// ruleWriteBackBounds (R03.20): a line can lie partly below address 0 (a squashed
+// wrong-path load with a small negative address installs it). Its write-back must
+// SKIP the bytes below 0 and may stop only past the end of the image; stopping at
+// the first negative byte drops the valid rest of the line (a later correct-path
+// store that hit the line is lost).
+func ruleWriteBackBounds(r *Run, rule string) {
+	w := r.W
+	for _, v := range variants(w) {
+		if v.pkg == nil || !v.pipelined() {
+			continue
+		}
+		info := v.info
+		for _, f := range v.pkg.Syntax {
+			for _, d := range f.Decls {
+				fd, ok := d.(*ast.FuncDecl)
+				if !ok || fd.Body == nil {
+					continue
+				}
+				// a loop that stores to the memory image
+				n := 0
+				ast.Inspect(fd.Body, func(m ast.Node) bool {
+					var body *ast.BlockStmt
+					switch x := m.(type) {
+					case *ast.RangeStmt:
+						body = x.Body
+					case *ast.ForStmt:
+						body = x.Body
+					default:
+						return true
+					}
+					stores := false
+					ast.Inspect(body, func(k ast.Node) bool {
+						if as, ok := k.(*ast.AssignStmt); ok {
+							for _, l := range as.Lhs {
+								if ix, ok := ast.Unparen(l).(*ast.IndexExpr); ok && ctxFieldWritten(info, ix.X) == "Memory" {
+									stores = true
+								}
+							}
+						}
+						return true
+					})
+					if !stores {
+						return true
+					}
+					n++
+					// guards of the loop body that test a sign
+					skipsNegative, stopsOnNegative := false, false
+					for _, st := range body.List {
+						is, ok := st.(*ast.IfStmt)
+						if !ok || len(is.Body.List) == 0 {
+							continue
+						}
+						signTest := false
+						ast.Inspect(is.Cond, func(k ast.Node) bool {
+							if b, ok := k.(*ast.BinaryExpr); ok && b.Op == token.LSS {
+								if c, ok := constInt64(info.Types[b.Y]); ok && c == 0 {
+									signTest = true
+								}
+							}
+							return true
+						})
+						if !signTest {
+							continue
+						}
+						switch x := is.Body.List[len(is.Body.List)-1].(type) {
+						case *ast.BranchStmt:
+							if x.Tok == token.CONTINUE {
+								skipsNegative = true
+							} else {
+								stopsOnNegative = true
+							}
+						case *ast.ReturnStmt:
+							stopsOnNegative = true
+						}
+					}
+					r.check(skipsNegative && !stopsOnNegative, rule, fmt.Sprintf("%s.%s:write-back-loop#%d", v.rel, declName(fd), n), body.Pos(), "the write-back of a line skips the bytes below address 0 (continue: %v) and does not stop at them (stop: %v)", skipsNegative, stopsOnNegative)
+					return true
+				})
 			}
 		}
 	}
